@@ -10,6 +10,11 @@ use tonic::codec::{Codec, DecodeBuf, Decoder, EncodeBuf, Encoder};
 use tonic::metadata::{Ascii, Binary, KeyAndValueRef, KeyRef, MetadataKey, MetadataMap, MetadataValue, ValueRef};
 use tonic::{Code, Request, Response, Status};
 
+#[path = "c08_entry.rs"]
+mod entry_api;
+#[path = "c08_api.rs"]
+mod typed_api;
+
 // ---------------------------------------------------------------------------------------------
 // raw codec
 
@@ -466,6 +471,8 @@ pub fn execute(case: &str) -> String {
             };
             e2e(&mode, code, msg, det, req, resp, stmd)
         }
+        Some("eops") => entry_api::execute(&mut it),
+        Some(k @ ("kctor" | "vctor" | "veq" | "ferr")) => typed_api::execute(k, &mut it),
         _ => "bad-case".into(),
     }
 }
@@ -815,6 +822,43 @@ pub fn generate(tier: &str, rng: &mut Rng) -> Vec<String> {
         let b: Vec<u8> = (0..n).map(|_| *rng.pick(b"AQgw=")).collect();
         out.push(format!("bineq {} {}", hex(&a), hex(&b)));
     }
+
+    // ---- large values (8 KiB, 64 KiB) in every kind that carries a value
+    for n in [8192usize, 65536] {
+        let pat: Vec<u8> = (0..n).map(|i| (i * 37 + 1) as u8).collect();
+        for v in [vec![0xffu8; n], pat.clone(), pat[..n - 1].to_vec(), pat[..n - 2].to_vec()] {
+            out.push(format!("bin {}", hex(&v)));
+        }
+        let ascii_big: Vec<u8> = (0..n).map(|i| 32 + (i % 95) as u8).collect();
+        out.push(format!("ascv {}", hex(&ascii_big)));
+        let mut bad = ascii_big.clone();
+        bad[n - 1] = b'\n';
+        out.push(format!("ascv {}", hex(&bad)));
+        use base64::Engine;
+        out.push(format!("binw {}", hex(base64::engine::general_purpose::STANDARD.encode(&pat[..n - 1]).as_bytes())));
+        out.push(format!("binw {}", hex(base64::engine::general_purpose::STANDARD_NO_PAD.encode(&pat[..n - 2]).as_bytes())));
+        let big_entries = vec![(b"x-a".to_vec(), ascii_big.clone()), (b"k-bin".to_vec(), base64::engine::general_purpose::STANDARD_NO_PAD.encode(&pat).into_bytes()), (b"x-a".to_vec(), b"small".to_vec())];
+        out.push(format!("iter {}", entries_tok(&big_entries)));
+        out.push(format!("acc {} {}", entries_tok(&big_entries), hex(b"K-BIN")));
+        out.push(format!("acc {} {}", entries_tok(&big_entries), hex(b"x-a")));
+        out.push(format!("ops 3 app A {} {} ins B {} {} app A {} {}", hex(b"x-a"), hex(&ascii_big), hex(b"k-bin"), hex(&pat), hex(b"x-a"), hex(b"2")));
+        let (padded, unpadded) = (base64::engine::general_purpose::STANDARD.encode(&pat[..n - 1]).into_bytes(), base64::engine::general_purpose::STANDARD_NO_PAD.encode(&pat[..n - 1]).into_bytes());
+        out.push(format!("bineq {} {}", hex(&padded), hex(&unpadded)));
+        out.push(format!("veq B {} {} {}", hex(&padded), hex(&unpadded), hex(&pat[..n - 1])));
+        out.push(format!("veq A {} {} {}", hex(&ascii_big), hex(&ascii_big), hex(&ascii_big)));
+        out.push(format!("hmap 4 app {} {} app {} {} get {} ext 1 {} {}", hex(b"a"), hex(&ascii_big), hex(b"a"), hex(&unpadded), hex(b"A"), hex(b"k-bin"), hex(&padded)));
+        // end to end: a large ASCII value and a large binary value in the request, the response and the status,
+        // and (64 KiB) a large status message and details
+        let big_md: Typed = vec![(false, b"x-big".to_vec(), ascii_big.clone()), (true, b"big-bin".to_vec(), pat.clone()), (false, b"x-big".to_vec(), b"after".to_vec())];
+        let msg: String = "m\u{e9}%".repeat(n / 4);
+        let det: Vec<u8> = pat.clone();
+        for mode in ["ok", "err", "sserr", "umix"] {
+            out.push(format!("e2e {} 9 {} {} {} {} {}", mode, hex(msg.as_bytes()), hex(&det), typed_tok(&big_md), typed_tok(&big_md[..1].to_vec()), typed_tok(&big_md[1..].to_vec())));
+        }
+    }
+    // ---- the entry API as operation sequences; every constructor and comparison; Status::from_error
+    entry_api::generate(thorough, rng, &mut out);
+    typed_api::generate(thorough, rng, &mut out);
 
     // ---- accessors and iterators over arbitrary received header maps
     let na = if thorough { 240000 } else { 5000 };
